@@ -85,7 +85,9 @@ pub fn drive(args: &Args) -> i32 {
         let store = ["cell", "shared", "fstr"][rng.gen_range(0..3)];
         let latin_only = fmt == "xls" && rng.gen_bool(0.4);
         // LABEL / STRING records hold at most 8224 bytes; SST strings continue over records
-        let cap = if fmt == "xls" && store != "shared" { maxlen.min(2000) } else { maxlen };
+        // (the plain SST writer used here keeps a string inside one record: <= 2000 characters (astral ones take two 16-bit units);
+        // strings continued over CONTINUE records are C12's subject)
+        let cap = if fmt == "xls" { if store != "shared" { maxlen.min(2000) } else { maxlen.min(2000) } } else { maxlen };
         let len = rng.gen_range(1..=cap);
         let cls: Vec<&str> = (0..len).map(|_| if latin_only { classes[rng.gen_range(0..7)] } else { classes[rng.gen_range(0..classes.len())] }).collect();
         let text: String = cls.iter().map(|c| cls_char(c)).collect();
